@@ -157,7 +157,9 @@ def evaluate(case) -> Verdict:
         v.info = src
         v.labels.append("safe-passthrough")
         return v
-    src = gg.to_source(case["main"])
+    if "src" in case:
+        case = dict(case, main=[])  # (a verbatim source: nothing to read filters off)
+    src = case["src"] if "src" in case else gg.to_source(case["main"])
     data = gd.decode(case["data"])
     env = envs.make_env(_cfg(True, ternary), PARTIALS)
     p = oc.outcome_of(lambda: env.from_string(src))
@@ -189,7 +191,7 @@ def evaluate(case) -> Verdict:
                     break
             v.labels.append("entity-check-applied")
         special_in = any(ch in core.canon(case["data"]) for ch in "<>&'")
-        v.nontrivial = special_in and ("&" in out) and bool(used or gg.kinds(case["main"]) & {"capture", "cycle", "include", "render", "assign"})
+        v.nontrivial = special_in and ("&" in out) and bool(used or "src" in case or gg.kinds(case["main"]) & {"capture", "cycle", "include", "render", "assign"})
         v.labels.append("hostile")
     else:
         env0 = envs.make_env(_cfg(False, ternary), PARTIALS)
@@ -301,7 +303,34 @@ SAFE_SHAPES = [
 SAFE_VALUES = [gd.tagged("markup", v="<b>bold</b> & 'q'"), gd.tagged("html", v="<i>x</i>&\"")]
 
 
+# every argument position of the translation filters and of the translate tag, fed from render data
+I18N_SHAPES = [
+    "{{ x | t }}", "{{ 'm' | t: plural: x, count: n }}", "{{ x | t: plural: x, count: n }}", "{{ 'm' | t: x, plural: x, count: n }}", "{{ 'm' | t: x }}",
+    "{{ '%(v)s!' | t: v: x }}", "{{ 'a %(v)s' | t: plural: 'b %(v)s', count: n, v: x }}", "{{ x | gettext }}", "{{ '%(v)s!' | gettext: v: x }}",
+    "{{ x | ngettext: x, n }}", "{{ 'a' | ngettext: x, n }}", "{{ 'a %(v)s' | ngettext: 'b %(v)s', n, v: x }}", "{{ x | pgettext: 'c' }}", "{{ 'a' | pgettext: x }}",
+    "{{ 'a %(v)s' | pgettext: 'c', v: x }}", "{{ 'a' | npgettext: 'c', x, n }}", "{{ x | npgettext: x, x, n }}", "{{ 'a %(v)s' | npgettext: 'c', 'b %(v)s', n, v: x }}",
+    "{% translate v: x %}Hello {{ v }}{% endtranslate %}", "{% translate %}Hello {{ x }}{% endtranslate %}",
+    "{% translate count: n, v: x %}One {{ v }}{% plural %}Many {{ v }} {{ count }}{% endtranslate %}",
+    "{% translate context: x, v: x %}Hello {{ v }}{% endtranslate %}", "{% translate v: x | upcase %}Hello {{ v }}{% endtranslate %}",
+    "{% assign m = x | t %}{{ m }}", "{% capture m %}{{ 'm' | t: plural: x, count: n }}{% endcapture %}{{ m }}", "{{ x | t | append: x }}", "{{ x | t | t }}",
+]
+I18N_COUNTS = [0, 1, 2, "2", None]
+
+
+def _i18n(ctx: core.Ctx, shard: int, nshards: int) -> None:
+    idx = 0
+    for shape in I18N_SHAPES:
+        for n in I18N_COUNTS:
+            if "n" not in shape.replace("endtranslate", "").replace("count", "").replace("npgettext", "").replace("ngettext", "").replace("append", "").replace("assign", "") and n != 1:
+                continue
+            for x in HOSTILE:
+                idx += 1
+                if idx % nshards == shard:
+                    ctx.run({"kind": "hostile", "src": shape, "data": {"x": x, "n": n}, "ternary": False}, enumerated=True)
+
+
 def campaign(ctx: core.Ctx, tier: str, shard: int, nshards: int) -> None:
+    _i18n(ctx, shard, nshards)
     idx = 0
     for i in range(len(SAFE_SHAPES)):
         for val in SAFE_VALUES:
